@@ -173,7 +173,7 @@ Section WithFam.
   (* a dialect-specific build is only ever started under a name without type arguments when the family
      has no specialised positions; builds without dialect are unrestricted *)
   Definition dial_ok (m: mname) (d: option did) : Prop :=
-    d = None \/ (spec_free F /\ m = dialect_target m).
+    d = None \/ m = dialect_target m.
 
   Lemma deps_with_wf bld c m fs :
     (forall st c' m' st' r, wf st -> (exists f, In f fs /\ c' = f_cls f /\ m' = nested m (f_spec f)) ->
@@ -203,22 +203,18 @@ Section WithFam.
                 (x = Stub c m \/ x = Compiled c m d) -> wf st2).
       { intros st1 x st2 r2 W1 I Hx. eapply install_wf; eauto.
         - intros ->. exact Hx.
-        - intros dd ->. destruct DK as [DK|[_ DK]]; [discriminate|]. split; [exact DK|].
+        - intros dd ->. destruct DK as [DK|DK]; [discriminate|]. split; [exact DK|].
           destruct Hx as [->| ->]; auto. }
       destruct (c_lazy (cls F c) && ap && (negb d5 || match d with None => true | Some _ => false end)).
       + eapply INST; eauto.
       + destruct (unresolved F st c).
         * destruct ap; [eapply INST; eauto|]. inversion B; subst; exact W.
-        * destruct (deps_with (fun st c' m' => build F d5 n st true c' m' d) c m (c_fields (cls F c)) st)
+        * destruct (deps_with (fun st c' m' => build F d5 n st true c' m' None) c m (c_fields (cls F c)) st)
             as [s1 [e|]] eqn:D.
           -- inversion B; subst. eapply deps_with_wf; [|exact W|exact D].
-             intros s c' m' s' r' Ws (f & If & -> & ->) Bn. eapply IH; [exact Ws| |exact Bn].
-             destruct DK as [->|[SF DK]]; [now left|]. right. split; [exact SF|].
-             rewrite (SF _ _ If). reflexivity.
+             intros s c' m' s' r' Ws _ Bn. eapply IH; [exact Ws| |exact Bn]. now left.
           -- eapply INST; [|exact B|now right]. eapply deps_with_wf; [|exact W|exact D].
-             intros s c' m' s' r' Ws (f & If & -> & ->) Bn. eapply IH; [exact Ws| |exact Bn].
-             destruct DK as [->|[SF DK]]; [now left|]. right. split; [exact SF|].
-             rewrite (SF _ _ If). reflexivity.
+             intros s c' m' s' r' Ws _ Bn. eapply IH; [exact Ws| |exact Bn]. now left.
   Qed.
 
   (* ----------------------------------------------------------------------- *)
@@ -272,10 +268,10 @@ Section WithFam.
   (* whatever the history, a call that reaches a real body reaches THE body generated for
      (class, method, dialect) - never one generated for another class, method or dialect *)
   Lemma dispatch_wf fuel : forall st c m d st' r,
-    wf st -> (d = None \/ spec_free F) -> dispatch F d5 fuel st c m d = (st', r) ->
+    wf st -> dispatch F d5 fuel st c m d = (st', r) ->
     wf st' /\ (forall k, r = DRun k -> k = code_of c m d).
   Proof.
-    induction fuel as [|fuel IH]; intros st c m d st' r W SD D.
+    induction fuel as [|fuel IH]; intros st c m d st' r W D.
     - cbn in D. inversion D; subst. split; [exact W|]. intros k H; discriminate.
     - rewrite dispatch_S in D.
       assert (RC: forall s x sm s' r', wf s ->
@@ -292,7 +288,7 @@ Section WithFam.
           + inversion R; subst. split; [|intros k H; discriminate].
             eapply build_wf; [exact Ws| |exact B]. now left.
           + assert (W1: wf s1) by (eapply build_wf; [exact Ws| |exact B]; now left).
-            destruct (IH _ _ _ _ _ _ W1 SD R) as [W2 K]. split; [exact W2|].
+            destruct (IH _ _ _ _ _ _ W1 R) as [W2 K]. split; [exact W2|].
             intros k H. rewrite (K k H). destruct d as [dd|]; cbn.
             * destruct Hsm as [?|[E _]]; [discriminate|]. now rewrite E.
             * now rewrite (Hm eq_refl). }
@@ -307,11 +303,9 @@ Section WithFam.
           -- discriminate.
         * destruct (build F d5 (bfuel F) st true c (dialect_target m) (Some dd)) as [s1 [e|]] eqn:B.
           -- inversion D; subst. split; [|intros k H; discriminate].
-             refine (build_wf _ _ _ _ _ _ _ _ (conj SW CW) _ B).
-             destruct SD as [?|SF]; [discriminate|]. right. split; [exact SF|reflexivity].
+             refine (build_wf _ _ _ _ _ _ _ _ (conj SW CW) _ B). right. reflexivity.
           -- assert (W1: wf s1).
-             { refine (build_wf _ _ _ _ _ _ _ _ (conj SW CW) _ B).
-               destruct SD as [?|SF]; [discriminate|]. right. split; [exact SF|reflexivity]. }
+             { refine (build_wf _ _ _ _ _ _ _ _ (conj SW CW) _ B). right. reflexivity. }
              destruct (cache_lookup s1 c m dd) as [x|] eqn:L1.
              ++ eapply (RC s1 x (dialect_target m)); [exact W1| | | |exact D].
                 ** destruct W1 as [_ CW1]. destruct (CW1 _ _ _ _ L1) as [->| ->]; [left; split; [reflexivity|discriminate]|now right; right].
@@ -390,13 +384,13 @@ Section WithFam.
   (* C14 core: in every well-formed state (however it was reached: eager, lazy, postponed, any order of
      earlier calls) a call that answers, answers [den] - which does not mention the state *)
   Lemma call_den fuel : forall x st c m d st' o,
-    wf st -> (d = None \/ spec_free F) -> call F d5 fuel x st c m d = (st', o) ->
+    wf st -> call F d5 fuel x st c m d = (st', o) ->
     wf st' /\ (forall t, o = Out t -> t = den x c m d).
   Proof.
-    induction x as [kids IHk] using vtree_ind'. intros st c m d st' o W SD C.
+    induction x as [kids IHk] using vtree_ind'. intros st c m d st' o W C.
     rewrite call_V in C.
     destruct (dispatch F d5 fuel st c m d) as [st1 r] eqn:D.
-    destruct (dispatch_wf _ _ _ _ _ _ _ W SD D) as [W1 K].
+    destruct (dispatch_wf _ _ _ _ _ _ _ W D) as [W1 K].
     destruct r as [k|e|].
     2:{ inversion C; subst. split; [exact W1|]. intros t H; discriminate. }
     2:{ inversion C; subst. split; [exact W1|]. intros t H; discriminate. }
@@ -406,7 +400,7 @@ Section WithFam.
     assert (EK: code_of c m d = Compiled c km d) by (unfold code_of, km; destruct d; reflexivity).
     rewrite EK in C. clear EK D.
     (* generalise over the accumulator *)
-    assert (G: forall l, Forall (fun iv => forall st c m d st' o, wf st -> (d = None \/ spec_free F) ->
+    assert (G: forall l, Forall (fun iv => forall st c m d st' o, wf st ->
                        call F d5 fuel (snd iv) st c m d = (st', o) ->
                        wf st' /\ (forall t, o = Out t -> t = den (snd iv) c m d)) l ->
                forall s acc s' o', wf s -> go (call F d5 fuel) F c km d l s acc = (s', o') ->
@@ -418,9 +412,7 @@ Section WithFam.
         2:{ eapply IHr; eauto. }
         set (d' := if c_dsup (cls F c) && c_dsup (cls F (f_cls f)) then d else None) in *.
         destruct (call F d5 fuel v s (f_cls f) (nested km (f_spec f)) d') as [s1 o1] eqn:Cv.
-        assert (SD': d' = None \/ spec_free F).
-        { unfold d'. destruct (c_dsup (cls F c) && c_dsup (cls F (f_cls f))); [exact SD|now left]. }
-        destruct (Hv _ _ _ _ _ _ Ws SD' Cv) as [Ws1 Hd].
+        destruct (Hv _ _ _ _ _ _ Ws Cv) as [Ws1 Hd].
         destruct o1 as [t1|e1|].
         + destruct (IHr Hr _ _ _ _ Ws1 Gq) as [Ws' Ht]. split; [exact Ws'|].
           intros t H. rewrite (Ht t H). cbn [rev]. rewrite <- app_assoc. cbn.
@@ -442,11 +434,6 @@ Definition sem (F: fam) (o: op) : tr :=
   | Call c m d x => den F x c m d
   end.
 
-(* an operation passing a dialect is in the theorem's domain only for families without specialised
-   (G[int]) positions: dialect caches are shared between the specialisations of a class *)
-Definition op_ok (F: fam) (o: op) : Prop :=
-  match o with Call _ _ (Some _) _ => spec_free F | _ => True end.
-
 Lemma wf_bind st c : wf st -> wf (bind st c).
 Proof. intros [SW CW]. split; intros c' m'; [apply (SW c' m')|apply (CW c' m')]. Qed.
 
@@ -463,28 +450,27 @@ Proof.
 Qed.
 
 Lemma step_wf F d5 fuel st o st' out :
-  wf st -> op_ok F o -> step F d5 fuel st o = (st', out) ->
+  wf st -> step F d5 fuel st o = (st', out) ->
   wf st' /\ (forall t, out = Out t -> t = sem F o).
 Proof.
-  intros W OK S. destruct o as [c|c m d x]; cbn [step] in S.
+  intros W S. destruct o as [c|c m d x]; cbn [step] in S.
   - destruct (define_fmts F d5 (c_fmts (cls F c)) st c) as [s1 [e|]] eqn:D; inversion S; subst.
     + split; [apply wf_bind; eapply define_fmts_wf; eauto|]. intros t H; discriminate.
     + split; [apply wf_bind; eapply define_fmts_wf; eauto|]. intros t H; inversion H; reflexivity.
-  - eapply call_den; [exact W| |exact S]. destruct d; [right; exact OK|now left].
+  - eapply call_den; [exact W|exact S].
 Qed.
 
 Lemma run_sem F d5 fuel : forall h st i t,
-  wf st -> Forall (op_ok F) h -> nth_error (run F d5 fuel st h) i = Some (Out t) ->
+  wf st -> nth_error (run F d5 fuel st h) i = Some (Out t) ->
   exists o, nth_error h i = Some o /\ t = sem F o.
 Proof.
-  induction h as [|o h IH]; intros st i t W FA N; cbn [run] in N.
+  induction h as [|o h IH]; intros st i t W N; cbn [run] in N.
   - destruct i; discriminate.
-  - inversion FA as [|? ? Ho Hh]; subst.
-    destruct (step F d5 fuel st o) as [st' out] eqn:S.
-    destruct (step_wf _ _ _ _ _ _ _ W Ho S) as [W' K].
+  - destruct (step F d5 fuel st o) as [st' out] eqn:S.
+    destruct (step_wf _ _ _ _ _ _ _ W S) as [W' K].
     destruct i as [|i]; cbn [nth_error] in N.
     + inversion N; subst. exists o. split; [reflexivity|]. now apply K.
-    + destruct (IH st' i t W' Hh N) as (o' & E & T). exists o'. now split.
+    + destruct (IH st' i t W' N) as (o' & E & T). exists o'. now split.
 Qed.
 
 (* two families with the same fields and options, differing (at most) in lazy_compilation *)
@@ -506,26 +492,23 @@ Qed.
    whenever both answer the i-th operation, the answers are equal.  (That both DO answer is the subject of
    the termination theorem and of the _refuted lemmas.) *)
 Theorem history_partial F F' d5 d5' fuel fuel' st st' h i t t' :
-  same_shape F F' -> wf st -> wf st' -> Forall (op_ok F) h ->
+  same_shape F F' -> wf st -> wf st' ->
   nth_error (run F d5 fuel st h) i = Some (Out t) ->
   nth_error (run F' d5' fuel' st' h) i = Some (Out t') ->
   t = t'.
 Proof.
-  intros SS W W' FA N N'.
-  assert (FA': Forall (op_ok F') h).
-  { rewrite Forall_forall in *. intros o Ho. specialize (FA o Ho). destruct o as [|c m [dd|] x]; cbn in *; auto.
-    intros c' f Hf. destruct (SS c') as [Ef _]. rewrite <- Ef in Hf. eapply FA; eauto. }
-  destruct (run_sem _ _ _ _ _ _ _ W FA N) as (o & E & ->).
-  destruct (run_sem _ _ _ _ _ _ _ W' FA' N') as (o' & E' & ->).
+  intros SS W W' N N'.
+  destruct (run_sem _ _ _ _ _ _ _ W N) as (o & E & ->).
+  destruct (run_sem _ _ _ _ _ _ _ W' N') as (o' & E' & ->).
   rewrite E in E'. inversion E'; subst o'. destruct o; cbn; [reflexivity|]. now apply den_ext.
 Qed.
 
 (* every state reachable from the empty module by class definitions (in any order) and calls is well formed *)
-Lemma reachable_wf F d5 fuel : forall h st, wf st -> Forall (op_ok F) h ->
+Lemma reachable_wf F d5 fuel : forall h st, wf st ->
   wf (fold_left (fun s o => fst (step F d5 fuel s o)) h st).
 Proof.
-  induction h as [|o h IH]; intros st W FA; cbn [fold_left]; [exact W|]. inversion FA; subst.
-  apply IH; [|assumption]. destruct (step F d5 fuel st o) as [s out] eqn:S. cbn.
+  induction h as [|o h IH]; intros st W; cbn [fold_left]; [exact W|].
+  apply IH. destruct (step F d5 fuel st o) as [s out] eqn:S. cbn.
   eapply step_wf; eauto.
 Qed.
 
@@ -603,11 +586,11 @@ Section Termination.
         * destruct ap.
           -- split; [eapply install_bound; eauto|]. intros _ R. rewrite R in U. discriminate.
           -- inversion B; subst. split; auto.
-        * destruct (deps_with (fun st c' m' => build F true n st true c' m' d) c m (c_fields (cls F c)) st)
+        * destruct (deps_with (fun st c' m' => build F true n st true c' m' None) c m (c_fields (cls F c)) st)
             as [s1 [e|]] eqn:D.
           -- inversion B; subst.
-             exact (deps_with_bound_ncs _ _ _ _ (fun st c' m' st' r H => IH st true c' m' d st' r H) _ _ _ D).
-          -- destruct (deps_with_bound_ncs _ _ _ _ (fun st c' m' st' r H => IH st true c' m' d st' r H) _ _ _ D) as [E1 N1].
+             exact (deps_with_bound_ncs _ _ _ _ (fun st c' m' st' r H => IH st true c' m' None st' r H) _ _ _ D).
+          -- destruct (deps_with_bound_ncs _ _ _ _ (fun st c' m' st' r H => IH st true c' m' None st' r H) _ _ _ D) as [E1 N1].
              split; [rewrite (install_bound _ _ _ _ _ _ _ _ B); exact E1|].
              intros N R. eapply install_ncs; [apply N1; assumption|exact B|]. right. eauto.
   Qed.
@@ -675,3 +658,138 @@ Section Termination.
       + destruct fuel as [|f]; [lia|]. cbn [plus]. rewrite !dispatch_S, G. cbn. split; [reflexivity|discriminate].
   Qed.
 End Termination.
+
+(* ------------------------------------------------------------------------- *)
+(* after fix 28d8957: a call never fails on a missing dialect cache           *)
+(* ------------------------------------------------------------------------- *)
+
+Lemma get_cache_ensure st c m : get_cache (ensure_cache st c m) c m <> None.
+Proof.
+  unfold ensure_cache. destruct (get_cache st c m) eqn:E; [congruence|].
+  unfold get_cache; cbn. rewrite aget_aset_same by apply ckey_eqb_refl. discriminate.
+Qed.
+
+Lemma cache_lookup_store_same st c m dd x l :
+  get_cache st c m = Some l -> cache_lookup (cache_store st c m dd x) c m dd = Some x.
+Proof.
+  intros G. unfold cache_store. rewrite G. unfold cache_lookup, get_cache; cbn.
+  rewrite aget_aset_same by apply ckey_eqb_refl. apply aget_aset_same. apply Nat.eqb_refl.
+Qed.
+
+Lemma install_none F st c m x : snd (install F st c m None x) = None.
+Proof. reflexivity. Qed.
+
+Lemma install_some_dsup F st c m dd x st' r :
+  c_dsup (cls F c) = true -> install F st c m (Some dd) x = (st', r) ->
+  r = None /\ cache_lookup st' c m dd = Some x.
+Proof.
+  intros DS I. unfold install in I. rewrite DS in I.
+  destruct (get_cache (ensure_cache st c m) c m) as [l|] eqn:G.
+  - inversion I; subst. split; [reflexivity|]. eapply cache_lookup_store_same; eauto.
+  - exfalso. eapply get_cache_ensure; eauto.
+Qed.
+
+Section NoCacheError.
+  Variable F : fam.
+  Variable d5 : bool.
+
+  Lemma deps_with_no_attr bld c m fs :
+    (forall st c' m' st' e, bld st c' m' = (st', Some e) -> e <> EAttrCache) ->
+    forall st st' e, deps_with bld c m fs st = (st', Some e) -> e <> EAttrCache.
+  Proof.
+    intros HB. induction fs as [|f fs IH]; intros st st' e D; cbn in D; [discriminate|].
+    destruct (get_slot st (f_cls f) (nested m (f_spec f))); [eapply IH; eauto|].
+    destruct (Nat.eqb (f_cls f) c && negb (m_top m)); [eapply IH; eauto|].
+    destruct (bld st (f_cls f) (nested m (f_spec f))) as [s1 [e1|]] eqn:B.
+    - inversion D; subst. eapply HB; eauto.
+    - eapply IH; eauto.
+  Qed.
+
+  Lemma build_no_attr n : forall st ap c m d st' e,
+    (d <> None -> c_dsup (cls F c) = true) ->
+    build F d5 n st ap c m d = (st', Some e) -> e <> EAttrCache.
+  Proof.
+    induction n as [|n IH]; intros st ap c m d st' e DS B; cbn in B.
+    - inversion B; discriminate.
+    - assert (INST: forall s x s' e', install F s c m d x = (s', Some e') -> e' <> EAttrCache).
+      { intros s x s' e' I. destruct d as [dd|].
+        - destruct (install_some_dsup F s c m dd x s' (Some e') (DS ltac:(discriminate)) I) as [N _]. discriminate.
+        - pose proof (install_none F s c m x) as H. rewrite I in H. discriminate. }
+      destruct (c_lazy (cls F c) && ap && (negb d5 || match d with None => true | Some _ => false end)).
+      + eapply INST; eauto.
+      + destruct (unresolved F st c).
+        * destruct ap; [eapply INST; eauto|]. inversion B; discriminate.
+        * destruct (deps_with (fun st c' m' => build F d5 n st true c' m' None) c m (c_fields (cls F c)) st)
+            as [s1 [e1|]] eqn:D.
+          -- inversion B; subst. eapply deps_with_no_attr; [|exact D].
+             intros s c' m' s' e2 Bn. eapply IH; [|exact Bn]. congruence.
+          -- eapply INST; eauto.
+  Qed.
+
+  Lemma build_dialect_stores n st ap c m dd st' :
+    c_dsup (cls F c) = true -> build F d5 n st ap c m (Some dd) = (st', None) ->
+    cache_lookup st' c m dd <> None.
+  Proof.
+    intros DS B. destruct n as [|n]; cbn in B; [discriminate|].
+    assert (INST: forall s x s', install F s c m (Some dd) x = (s', None) -> cache_lookup s' c m dd <> None).
+    { intros s x s' I. destruct (install_some_dsup F s c m dd x s' None DS I) as [_ L]. congruence. }
+    destruct (c_lazy (cls F c) && ap && (negb d5 || false)); [eapply INST; eauto|].
+    destruct (unresolved F st c).
+    - destruct ap; [eapply INST; eauto|discriminate].
+    - destruct (deps_with _ c m (c_fields (cls F c)) st) as [s1 [e1|]]; [discriminate|]. eapply INST; eauto.
+  Qed.
+
+  Lemma cache_lookup_dialect_target st c m dd : cache_lookup st c (dialect_target m) dd = cache_lookup st c m dd.
+  Proof. reflexivity. Qed.
+
+  Lemma dispatch_no_attr fuel : forall st c m d st' e,
+    (d <> None -> c_dsup (cls F c) = true) ->
+    dispatch F d5 fuel st c m d = (st', DExc e) -> e <> EAttrCache.
+  Proof.
+    induction fuel as [|fuel IH]; intros st c m d st' e DS D; [cbn in D; discriminate|].
+    rewrite dispatch_S in D.
+    assert (RC: forall s x, run_cached F d5 fuel c d s x = (st', DExc e) -> e <> EAttrCache).
+    { intros s x R. destruct x as [sc sm|]; cbn [run_cached] in R; [|discriminate].
+      destruct (build F d5 (bfuel F) s false c (stub_target sm) None) as [s1 [e1|]] eqn:B.
+      - inversion R; subst. eapply build_no_attr; [|exact B]. congruence.
+      - eapply IH; eauto. }
+    destruct (get_slot st c m); [|inversion D; discriminate].
+    destruct d as [dd|]; [|eapply RC; eauto].
+    destruct (cache_lookup st c m dd); [eapply RC; eauto|].
+    destruct (build F d5 (bfuel F) st true c (dialect_target m) (Some dd)) as [s1 [e1|]] eqn:B.
+    - inversion D; subst. eapply build_no_attr; [|exact B]. intros _. apply DS. discriminate.
+    - pose proof (build_dialect_stores _ _ _ _ _ _ _ (DS ltac:(discriminate)) B) as L.
+      rewrite cache_lookup_dialect_target in L.
+      destruct (cache_lookup s1 c m dd); [eapply RC; eauto|congruence].
+  Qed.
+
+  (* whatever the state (eager / lazy / postponed, any earlier calls, first call with or without dialect):
+     a call whose dialect argument is only passed to classes with ADD_DIALECT_SUPPORT never fails with
+     "type object has no attribute __dialect_*_cache__" *)
+  Theorem no_cache_attribute_error fuel : forall x st c m d st' o,
+    (d <> None -> c_dsup (cls F c) = true) ->
+    call F d5 fuel x st c m d = (st', o) -> o <> Exc EAttrCache.
+  Proof.
+    induction x as [kids IHk] using vtree_ind'. intros st c m d st' o DS C.
+    rewrite call_V in C.
+    destruct (dispatch F d5 fuel st c m d) as [st1 r] eqn:D.
+    destruct r as [k|e|].
+    - destruct k as [|kc km kd]; [inversion C; discriminate|].
+      assert (G: forall l, Forall (fun iv => forall st c m d st' o, (d <> None -> c_dsup (cls F c) = true) ->
+                       call F d5 fuel (snd iv) st c m d = (st', o) -> o <> Exc EAttrCache) l ->
+                 forall s acc s' o', go (call F d5 fuel) F kc km kd l s acc = (s', o') -> o' <> Exc EAttrCache).
+      { induction l as [|[i v] r IHr]; intros FA s acc s' o' Gq; cbn in Gq.
+        - inversion Gq; discriminate.
+        - inversion FA as [|? ? Hv Hr]; subst.
+          destruct (nth_error (c_fields (cls F kc)) i) as [f|]; [|eapply IHr; eauto].
+          destruct (call F d5 fuel v s (f_cls f) (nested km (f_spec f))
+                      (if c_dsup (cls F kc) && c_dsup (cls F (f_cls f)) then kd else None)) as [s1 o1] eqn:Cv.
+          assert (N1: o1 <> Exc EAttrCache).
+          { eapply Hv; [|exact Cv]. destruct (c_dsup (cls F kc) && c_dsup (cls F (f_cls f))) eqn:E; [|congruence].
+            intros _. apply andb_prop in E. tauto. }
+          destruct o1 as [t1|e1|]; [eapply IHr; eauto| |]; inversion Gq; subst; auto. }
+      eapply G; eauto.
+    - inversion C; subst. intros H. inversion H; subst. eapply dispatch_no_attr; eauto.
+    - inversion C; discriminate.
+  Qed.
+End NoCacheError.
